@@ -264,6 +264,7 @@ func c44ResolvesTo(t *rapid.T, ctx context.Context, r *c44Repo, s string, what s
 
 func c44BranchEndToEnd(t *rapid.T, ctx context.Context, s string) (classes []string) {
 	r := c44NewRepo(t, ctx)
+	defer r.ddb.Close()
 	br := ref.NewBranchRef(s)
 	if br.GetPath() != s {
 		t.Fatalf("NewBranchRef(%q).GetPath() = %q", s, br.GetPath())
@@ -306,6 +307,7 @@ func c44BranchEndToEnd(t *rapid.T, ctx context.Context, s string) (classes []str
 
 func c44TagEndToEnd(t *rapid.T, ctx context.Context, s string) (classes []string) {
 	r := c44NewRepo(t, ctx)
+	defer r.ddb.Close()
 	tr := ref.NewTagRef(s)
 	if tr.GetPath() != s {
 		t.Fatalf("NewTagRef(%q).GetPath() = %q", s, tr.GetPath())
